@@ -3,45 +3,74 @@ import PsModel.Spec.C18
 /-! # C18 helper lemmas -/
 namespace PsModel.C18
 
-theorem run_append (s : FState) (a b : List Frame) : run s (a ++ b) = run (run s a) b := by
-  simp [run, List.foldl_append]
+theorem run_append (c : Cfg) (s : FState) (a b : List Frame) : runC c s (a ++ b) = runC c (runC c s a) b := by
+  simp [runC, List.foldl_append]
 
-theorem run_cons (s : FState) (f : Frame) (r : List Frame) : run s (f :: r) = run (step s f) r := rfl
+theorem run_cons (c : Cfg) (s : FState) (f : Frame) (r : List Frame) : runC c s (f :: r) = runC c (stepC c s f) r := rfl
 
-theorem run_others (s : FState) (n : Nat) : run s (List.replicate n .other) = s := by
+theorem run_others (c : Cfg) (s : FState) (n : Nat) : runC c s (List.replicate n .other) = s := by
   induction n with
   | zero => rfl
   | succ k ih => rw [List.replicate_succ, run_cons]; exact ih
 
+/-- a further `aeval` frame of the evaluator the formatter is already in changes nothing -/
+theorem enterCtx_same (c : Cfg) (s : FState) (ctx : Nat) (h : s.curCtx = some ctx) (he : s.funcEntered = false) :
+    enterCtx c s ctx = s := by
+  cases s
+  simp_all [enterCtx]
+
+/-- the first `aeval` frame after an `EvalFunc.call` frame never resets (whatever the evaluator) -/
+theorem enterCtx_entered (c : Cfg) (s : FState) (ctx : Nat) (he : s.funcEntered = true) :
+    enterCtx c s ctx = { s with curCtx := some ctx, funcEntered := false } := by
+  cases s
+  simp only [enterCtx]
+  split
+  · simp_all
+  · simp_all
+
+/-- the first `aeval` frame of all -/
+theorem enterCtx_first (c : Cfg) (s : FState) (ctx : Nat) (h : s.curCtx = none) :
+    enterCtx c s ctx = { s with curCtx := some ctx, funcEntered := false } := by
+  cases s
+  simp_all [enterCtx]
+
+/-- an `aeval` frame of another evaluator that was not entered through `EvalFunc.call`: the current code starts afresh -/
+theorem enterCtx_reset (s : FState) (c0 ctx : Nat) (h : s.curCtx = some c0) (hne : c0 ≠ ctx) (he : s.funcEntered = false) :
+    enterCtx Cfg.current s ctx = { s with curFunc := none, curFile := none, curCtx := some ctx, funcEntered := false } := by
+  cases s
+  simp_all [enterCtx, Cfg.current]
+
 /-- inside one activation every further `aeval` frame only refines the line of the entry on top -/
-theorem run_aevals_refine (f : String) (g : Option String) (cf cn : String) (noise : Nat) (ls : List Nat) :
+theorem run_aevals_refine (c : Cfg) (f : String) (g : Option String) (ctx : Nat) (cf cn : String) (noise : Nat) (ls : List Nat) :
     ∀ (s : FState) (e0 : Entry) (R : List Entry), s.curFile = some f → s.curFunc = g →
+      s.curCtx = some ctx → s.funcEntered = false →
       s.rstack = e0 :: R → e0.file = f → e0.func = entryFunc g f cn → e0.isReal = false → e0.line = s.line →
-      ∃ l, run s (List.replicate noise .other ++ aevals cf cn noise ls)
+      ∃ l, runC c s (List.replicate noise .other ++ aevals ctx cf cn noise ls)
             = { s with line := l, rstack := { e0 with line := l } :: R } ∧
            l = (ls.getLast?).getD s.line := by
   induction ls with
   | nil =>
-    intro s e0 R _ _ hr _ _ _ hl
+    intro s e0 R _ _ _ _ hr _ _ _ hl
     refine ⟨s.line, ?_, rfl⟩
     simp only [aevals, List.append_nil, run_others]
     cases s
     cases e0
     simp_all
   | cons l r ih =>
-    intro s e0 R hf hg hr h1 h2 h3 hl
+    intro s e0 R hf hg hc he hr h1 h2 h3 hl
     rw [run_append, run_others]
     simp only [aevals, run_cons]
-    have hstep : step s (.aeval cf cn (some l))
+    have hstep : stepC c s (.aeval ctx cf cn (some l))
         = { s with line := l, rstack := { e0 with line := l } :: R } := by
-      simp only [step, hf, Option.isNone_some, Bool.false_eq_true, if_false, astFrame, Option.getD_some, hr]
+      simp only [stepC, enterCtx_same c s ctx hc he, hf, Option.isNone_some, Bool.false_eq_true, if_false, astFrame,
+        Option.getD_some, hr]
       rw [hg, ← h2]
       simp only [h1, and_self, if_true]
       cases e0
       simp_all
     rw [hstep]
     obtain ⟨l', h', hl'⟩ := ih { s with line := l, rstack := { e0 with line := l } :: R } { e0 with line := l } R
-      hf hg rfl h1 h2 h3 rfl
+      hf hg hc he rfl h1 h2 h3 rfl
     refine ⟨l', by rw [h'], ?_⟩
     rw [hl']
     cases r with
@@ -52,82 +81,126 @@ theorem run_aevals_refine (f : String) (g : Option String) (cf cn : String) (noi
       | none => simp at hx
       | some v => rfl
 
+/-- the first `aeval` frame of a new entry: given what `enterCtx` leaves behind (function `g`, file `f` or none yet),
+a new entry is pushed unless the entry on top has the same file and function -/
+theorem step_push (c : Cfg) (t : FState) (ctx : Nat) (cf cn : String) (l : Nat) (g : Option String) (f : String)
+    (R : List Entry)
+    (hg : (enterCtx c t ctx).curFunc = g)
+    (hf : (enterCtx c t ctx).curFile = some f ∨ ((enterCtx c t ctx).curFile = none ∧ cf = f))
+    (hr : (enterCtx c t ctx).rstack = R) (hc : (enterCtx c t ctx).curCtx = some ctx)
+    (he : (enterCtx c t ctx).funcEntered = false)
+    (hne : ∀ e R', R = e :: R' → ¬(e.file = f ∧ e.func = entryFunc g f cn)) :
+    stepC c t (.aeval ctx cf cn (some l))
+      = { curFunc := g, curFile := some f, line := l,
+          rstack := { file := f, func := entryFunc g f cn, line := l, isReal := false } :: R,
+          curCtx := some ctx, funcEntered := false } := by
+  simp only [stepC]
+  generalize enterCtx c t ctx = u at hg hf hr hc he
+  cases u with
+  | mk uf ufile uline ustack uctx uent =>
+    simp only at hg hf hr hc he
+    subst hg hr hc he
+    have hfile : (if ufile.isNone = true then
+          ({ curFunc := uf, curFile := some cf, line := uline, rstack := ustack, curCtx := some ctx, funcEntered := false } : FState)
+        else { curFunc := uf, curFile := ufile, line := uline, rstack := ustack, curCtx := some ctx, funcEntered := false })
+        = { curFunc := uf, curFile := some f, line := uline, rstack := ustack, curCtx := some ctx, funcEntered := false } := by
+      rcases hf with h | ⟨h, h'⟩
+      · subst h; simp
+      · subst h h'; simp
+    simp only [hfile, astFrame, Option.getD_some]
+    cases hR : ustack with
+    | nil => rfl
+    | cons e R' =>
+      have := hne e R' hR
+      simp only
+      rw [if_neg (by
+        intro hh
+        exact this ⟨hh.1.symm, hh.2.symm⟩)]
+
+theorem getLast_snoc_aux (l : Nat) (r ls : List Nat) (last l' : Nat) (hls : ls ++ [last] = l :: r)
+    (hl' : l' = (r.getLast?).getD l) : l' = last := by
+  rw [hl']
+  have h2 : (l :: r).getLast? = some last := by rw [← hls]; simp
+  cases r with
+  | nil => simp at h2 ⊢; exact h2
+  | cons y ys => rw [List.getLast?_cons_cons] at h2; simp [h2]
+
+/-- the state after one whole activation -/
+def afterAct (a : Act) (R : List Entry) : FState :=
+  { curFunc := some a.func, curFile := some a.file, line := a.last, rstack := triple a :: R,
+    curCtx := some a.ctx, funcEntered := false }
+
 /-- one whole activation pushes exactly one entry (its file, function, current line), provided the entry on top of
-the stack is not one of the same file and function -/
-theorem run_act (a : Act) (s : FState)
+the stack is not one of the same file and function – in both shapes of the formatter -/
+theorem run_act (c : Cfg) (a : Act) (s : FState)
     (hne : ∀ e R, s.rstack = e :: R → ¬(e.file = a.file ∧ e.func = some a.func)) :
-    run s (actFrames a) = { curFunc := some a.func, curFile := some a.file, line := a.last, rstack := triple a :: s.rstack } := by
-  unfold actFrames
+    runC c s (actFrames a) = afterAct a s.rstack := by
+  unfold actFrames afterAct
   have hpre : ∀ s0 : FState, s0.rstack = s.rstack →
-      run s0 ([Frame.evalFuncCall a.func a.file] ++ aevals a.ctxFile a.ctxName a.noise (a.lines ++ [a.last]))
-        = { curFunc := some a.func, curFile := some a.file, line := a.last, rstack := triple a :: s.rstack } := by
+      runC c s0 ([Frame.evalFuncCall a.func a.file] ++ aevals a.ctx a.ctxFile a.ctxName a.noise (a.lines ++ [a.last]))
+        = { curFunc := some a.func, curFile := some a.file, line := a.last, rstack := triple a :: s.rstack,
+            curCtx := some a.ctx, funcEntered := false } := by
     intro s0 h0
     rw [run_append]
-    simp only [run, List.foldl_cons, List.foldl_nil, step]
+    simp only [runC, List.foldl_cons, List.foldl_nil, stepC]
     -- first aeval of the activation: a new entry is pushed
     cases hls : a.lines ++ [a.last] with
     | nil => simp at hls
     | cons l r =>
       simp only [aevals]
-      change run _ (Frame.aeval a.ctxFile a.ctxName (some l) :: _) = _
+      change runC c _ (Frame.aeval a.ctx a.ctxFile a.ctxName (some l) :: _) = _
       rw [run_cons]
-      have hpush : step { s0 with curFunc := some a.func, curFile := some a.file } (.aeval a.ctxFile a.ctxName (some l))
-          = { curFunc := some a.func, curFile := some a.file, line := l,
-              rstack := { file := a.file, func := some a.func, line := l, isReal := false } :: s.rstack } := by
-        simp only [step, Option.isNone_some, Bool.false_eq_true, if_false, astFrame, Option.getD_some, h0, entryFunc]
-        cases hR : s.rstack with
-        | nil => rfl
-        | cons e R =>
-          have := hne e R hR
-          simp only
-          rw [if_neg (by
-            intro hh
-            exact this ⟨hh.1.symm, hh.2.symm⟩)]
+      have hE := enterCtx_entered c { s0 with curFunc := some a.func, curFile := some a.file, funcEntered := true }
+        a.ctx rfl
+      have hpush := step_push c { s0 with curFunc := some a.func, curFile := some a.file, funcEntered := true }
+        a.ctx a.ctxFile a.ctxName l (some a.func) a.file s.rstack (by rw [hE]) (Or.inl (by rw [hE])) (by rw [hE]; exact h0)
+        (by rw [hE]) (by rw [hE]) (by
+          intro e R' hR
+          simpa [entryFunc] using hne e R' hR)
+      simp only [entryFunc] at hpush
       rw [hpush]
-      obtain ⟨l', h', hl'⟩ := run_aevals_refine a.file (some a.func) a.ctxFile a.ctxName a.noise r
+      obtain ⟨l', h', hl'⟩ := run_aevals_refine c a.file (some a.func) a.ctx a.ctxFile a.ctxName a.noise r
         { curFunc := some a.func, curFile := some a.file, line := l,
-          rstack := { file := a.file, func := some a.func, line := l, isReal := false } :: s.rstack }
-        { file := a.file, func := some a.func, line := l, isReal := false } s.rstack rfl rfl rfl rfl rfl rfl rfl
+          rstack := { file := a.file, func := some a.func, line := l, isReal := false } :: s.rstack,
+          curCtx := some a.ctx, funcEntered := false }
+        { file := a.file, func := some a.func, line := l, isReal := false } s.rstack rfl rfl rfl rfl rfl rfl rfl rfl rfl
       rw [h']
-      have hlast : l' = a.last := by
-        rw [hl']
-        have : (l :: r).getLast? = some a.last := by rw [← hls]; simp
-        cases r with
-        | nil => simp at this ⊢; exact this
-        | cons x xs =>
-          rw [List.getLast?_cons_cons] at this
-          simp [this]
+      have hlast : l' = a.last := getLast_snoc_aux l r a.lines a.last l' hls hl'
       subst hlast
       rfl
   by_cases hv : a.viaCallFunc
   · simp only [hv, if_true]
     rw [List.append_assoc, run_append]
-    have : (run s [Frame.callFunc a.func]).rstack = s.rstack := by
-      simp only [run, List.foldl_cons, List.foldl_nil, step]
+    have : (runC c s [Frame.callFunc a.func]).rstack = s.rstack := by
+      simp only [runC, List.foldl_cons, List.foldl_nil, stepC]
       split <;> rfl
     exact hpre _ this
   · simp only [hv, Bool.false_eq_true, if_false, List.nil_append]
     exact hpre s rfl
 
-theorem run_chain : ∀ (chain : List Act) (s : FState), NoAdj chain →
+/-- the formatter is inside evaluator `c0` and the latest `aeval` frame was not preceded by `EvalFunc.call` -/
+def Inv (s : FState) (c0 : Nat) : Prop := s.funcEntered = false ∧ s.curCtx = some c0
+
+theorem run_chain (c : Cfg) : ∀ (chain : List Act) (s : FState), NoAdj chain →
     (∀ a r, chain = a :: r → ∀ e R, s.rstack = e :: R → ¬(e.file = a.file ∧ e.func = some a.func)) →
-    (run s (framesOf chain)).rstack = (chain.map triple).reverse ++ s.rstack := by
+    (runC c s (framesOf chain)).rstack = (chain.map triple).reverse ++ s.rstack ∧
+    (∀ c0, Inv s c0 → Inv (runC c s (framesOf chain)) (lastCtx c0 chain)) := by
   intro chain
   induction chain with
-  | nil => intro s _ _; rfl
+  | nil => intro s _ _; exact ⟨rfl, fun c0 h => h⟩
   | cons a r ih =>
     intro s hn h0
     unfold framesOf
     simp only [List.map_cons, List.flatten_cons]
-    rw [run_append, run_act a s (h0 a r rfl)]
+    rw [run_append, run_act c a s (h0 a r rfl)]
     have hn' : NoAdj r := by
       cases r with
       | nil => trivial
       | cons b t => exact hn.2
-    have := ih { curFunc := some a.func, curFile := some a.file, line := a.last, rstack := triple a :: s.rstack } hn' (by
+    have := ih (afterAct a s.rstack) hn' (by
       intro b t hb e R hR
       subst hb
-      simp only [List.cons.injEq] at hR
+      simp only [afterAct, List.cons.injEq] at hR
       obtain ⟨rfl, _⟩ := hR
       have hab := hn.1
       simp only [triple]
@@ -138,8 +211,132 @@ theorem run_chain : ∀ (chain : List Act) (s : FState), NoAdj chain →
         simp only [Option.some.injEq] at this
         exact h1 this)
     unfold framesOf at this
-    rw [this]
-    simp
+    refine ⟨?_, ?_⟩
+    · rw [this.1]
+      simp [afterAct]
+    · intro c0 _
+      have h2 := this.2 a.ctx ⟨rfl, rfl⟩
+      have : lastCtx c0 (a :: r) = lastCtx a.ctx r := by
+        unfold lastCtx
+        cases r with
+        | nil => simp
+        | cons b t =>
+          rw [List.getLast?_cons_cons]
+          cases hx : (b :: t).getLast? with
+          | none => simp at hx
+          | some v => rfl
+      rw [this]
+      exact h2
+
+theorem run_reals (c : Cfg) (rs : List RealFr) (s : FState) :
+    runC c s (rs.map RealFr.frame) = { s with rstack := (rs.map RealFr.entry).reverse ++ s.rstack } := by
+  induction rs generalizing s with
+  | nil => simp [runC]
+  | cons r t ih =>
+    simp only [List.map_cons, run_cons]
+    rw [ih]
+    simp [stepC, RealFr.frame, RealFr.entry]
+
+/-- the state after the body of a file -/
+def afterMod (m : ModAct) (R : List Entry) : FState :=
+  { curFunc := none, curFile := some m.file, line := m.last, rstack := modTriple m :: R,
+    curCtx := some m.ctx, funcEntered := false }
+
+/-- the body of a file that is being loaded, entered from a state in which the formatter has no function and no file
+(the very first frame, or – in the current code – after the reset for a new evaluator) -/
+theorem run_mod_fresh (c : Cfg) (m : ModAct) (s : FState) (hf : s.curFunc = none) (hfile : s.curFile = none)
+    (hctx : enterCtx c s m.ctx = { s with curCtx := some m.ctx, funcEntered := false })
+    (hne : ∀ e R, s.rstack = e :: R → ¬(e.file = m.file ∧ e.func = entryFunc none m.file m.ctxName)) :
+    runC c s (modFrames m) = afterMod m s.rstack := by
+  unfold modFrames afterMod
+  cases hls : m.lines ++ [m.last] with
+  | nil => simp at hls
+  | cons l r =>
+    simp only [aevals, run_cons]
+    have h1 := step_push c s m.ctx m.file m.ctxName l none m.file s.rstack (by rw [hctx]; exact hf)
+      (Or.inr ⟨by rw [hctx]; exact hfile, rfl⟩) (by rw [hctx]) (by rw [hctx]) (by rw [hctx]) hne
+    rw [h1]
+    obtain ⟨l', h', hl'⟩ := run_aevals_refine c m.file none m.ctx m.file m.ctxName m.noise r
+      { curFunc := none, curFile := some m.file, line := l,
+        rstack := { file := m.file, func := entryFunc none m.file m.ctxName, line := l, isReal := false } :: s.rstack,
+        curCtx := some m.ctx, funcEntered := false }
+      { file := m.file, func := entryFunc none m.file m.ctxName, line := l, isReal := false } s.rstack
+      rfl rfl rfl rfl rfl rfl rfl rfl rfl
+    rw [h']
+    have : l' = m.last := getLast_snoc_aux l r m.lines m.last l' hls hl'
+    subst this
+    rfl
+
+/-- one import segment in the CURRENT code: real frames, the body of the imported file on a new evaluator, its chain -/
+theorem run_seg (g : Seg) (s : FState) (c0 : Nat) (hinv : Inv s c0) (hc : c0 ≠ g.m.ctx)
+    (hreal : ∀ e R, (g.reals.map RealFr.entry).reverse ++ s.rstack = e :: R →
+      ¬(e.file = g.m.file ∧ e.func = entryFunc none g.m.file g.m.ctxName))
+    (hn : NoAdj g.chain) (hfirst : FirstOk g.m g.chain) :
+    (runC Cfg.current s (segFrames g)).rstack = (segTriples g).reverse ++ s.rstack ∧
+    Inv (runC Cfg.current s (segFrames g)) (lastCtx g.m.ctx g.chain) := by
+  unfold segFrames
+  rw [run_append, run_append, run_reals]
+  -- the first aeval frame of the imported file: reset, then a fresh module body
+  have hmod : runC Cfg.current { s with rstack := (g.reals.map RealFr.entry).reverse ++ s.rstack } (modFrames g.m)
+      = afterMod g.m ((g.reals.map RealFr.entry).reverse ++ s.rstack) := by
+    unfold modFrames afterMod
+    cases hls : g.m.lines ++ [g.m.last] with
+    | nil => simp at hls
+    | cons l r =>
+      simp only [aevals, run_cons]
+      have hE := enterCtx_reset { s with rstack := (g.reals.map RealFr.entry).reverse ++ s.rstack } c0 g.m.ctx
+        hinv.2 hc hinv.1
+      have h1 := step_push Cfg.current { s with rstack := (g.reals.map RealFr.entry).reverse ++ s.rstack }
+        g.m.ctx g.m.file g.m.ctxName l none g.m.file ((g.reals.map RealFr.entry).reverse ++ s.rstack)
+        (by rw [hE]) (Or.inr ⟨by rw [hE], rfl⟩) (by rw [hE]) (by rw [hE]) (by rw [hE]) hreal
+      rw [h1]
+      obtain ⟨l', h', hl'⟩ := run_aevals_refine Cfg.current g.m.file none g.m.ctx g.m.file g.m.ctxName g.m.noise r
+        { curFunc := none, curFile := some g.m.file, line := l,
+          rstack := { file := g.m.file, func := entryFunc none g.m.file g.m.ctxName, line := l, isReal := false }
+                      :: ((g.reals.map RealFr.entry).reverse ++ s.rstack),
+          curCtx := some g.m.ctx, funcEntered := false }
+        { file := g.m.file, func := entryFunc none g.m.file g.m.ctxName, line := l, isReal := false }
+        ((g.reals.map RealFr.entry).reverse ++ s.rstack)
+        rfl rfl rfl rfl rfl rfl rfl rfl rfl
+      rw [h']
+      have : l' = g.m.last := getLast_snoc_aux l r g.m.lines g.m.last l' hls hl'
+      subst this
+      rfl
+  rw [hmod]
+  have hch := run_chain Cfg.current g.chain (afterMod g.m ((g.reals.map RealFr.entry).reverse ++ s.rstack)) hn (by
+    intro a r ha e R hR
+    simp only [afterMod, List.cons.injEq] at hR
+    obtain ⟨rfl, _⟩ := hR
+    exact hfirst a r ha)
+  refine ⟨?_, hch.2 g.m.ctx ⟨rfl, rfl⟩⟩
+  rw [hch.1]
+  simp [afterMod, segTriples, List.reverse_append]
+
+theorem segOk_real (c0 : Nat) (g : Seg) (h : SegOk c0 g) (S : List Entry) :
+    ∀ e R, (g.reals.map RealFr.entry).reverse ++ S = e :: R →
+      ¬(e.file = g.m.file ∧ e.func = entryFunc none g.m.file g.m.ctxName) := by
+  obtain ⟨_, ⟨r, hr, hne⟩, _, _⟩ := h
+  obtain ⟨ys, hys⟩ := List.getLast?_eq_some_iff.mp hr
+  intro e R he
+  rw [hys] at he
+  simp only [List.map_append, List.map_cons, List.map_nil, List.reverse_append, List.reverse_cons, List.reverse_nil,
+    List.nil_append, List.cons_append, List.cons.injEq] at he
+  obtain ⟨rfl, _⟩ := he
+  simpa [RealFr.entry, eq_comm] using hne
+
+/-- nested imports of any depth in the CURRENT code -/
+theorem run_segs : ∀ (segs : List Seg) (s : FState) (c0 : Nat), Inv s c0 → SegsOk c0 segs →
+    (runC Cfg.current s (segs.flatMap segFrames)).rstack = (segs.flatMap segTriples).reverse ++ s.rstack := by
+  intro segs
+  induction segs with
+  | nil => intro s c0 _ _; rfl
+  | cons g r ih =>
+    intro s c0 hinv hok
+    obtain ⟨hg, hr⟩ := hok
+    have h1 := run_seg g s c0 hinv hg.1 (segOk_real c0 g hg s.rstack) hg.2.2.1 hg.2.2.2
+    simp only [List.flatMap_cons]
+    rw [run_append, ih _ _ h1.2 hr, h1.1]
+    simp [List.reverse_append]
 
 /-! ## containment -/
 
